@@ -38,12 +38,29 @@ ASSUMPTIONS = [
     "semantic theorems are over a commutative ring with division x/y = x*inv y (no rounding)",
 ]
 MANIFEST = {
-    "technique": "Coq model of the source compiler one level above the text (token lists / syntax trees), pseudofunction "
-                 "templates and tables regenerated from the source, semantic-preservation theorems, exact AST "
-                 "correspondence against Simultaneous.from_string through Python's ast",
-    "level_text": "see props/C04.v",
-    "level_note": "partial: the character-level regexes, the PEG grammars and Jinja are glue exercised by the "
-                  "correspondence, not modelled",
+    "technique": "Coq model of the model-source compiler one level above the text (token lists / syntax trees): pseudofunction "
+                 "string templates, default shifts, the residual template and the kind tables regenerated from the source on "
+                 "every run; semantic-preservation theorems over an abstract commutative ring with division; exact AST "
+                 "correspondence against Simultaneous.from_string (xtrings parsed by Python's ast)",
+    "level_text": "Theorems (props/C04.v), for all expression trees, environments, dates, shifts, nesting depths: shifting all "
+                  "names denotes the expression at the shifted date; the expansion of every pseudofunction, built from the string "
+                  "templates of _pseudo_* regenerated on every run, denotes its documented formula (diff, diff_log/difflog, pct, "
+                  "roc, shift, mov_sum/movsum = sum of n terms, mov_avg, mov_prod, default shifts -1/-4) and every template is "
+                  "delimited by its own parentheses; the compiled equation -(lhs)+rhs denotes rhs - lhs of the equation as written "
+                  "after macro expansion on arbitrary data (transition shocks read as shock + anticipated shock); "
+                  "_resolve_sequence on every well-nested !for/!if/!else/!end sequence equals the expansion (loop = concatenation "
+                  "over tokens, conditional = selected branch) with bounded fuel, and the un-repaired !else search is refuted; "
+                  "sources that differ by unrolling loops/conditionals or only in style ({k}/[k], ^/**, =/:=, keyword spellings, "
+                  "<x>/{{x}}) compile to the same model; the quantities are exactly the declared ones (+ ant_/std_) and log status "
+                  "follows !log-variables / !all-but.  Tie: exact equality of the model's compile (vm_compute) with the quantities "
+                  "(name, kind, description, log status, id order) and the dynamic/steady xtrings of Simultaneous.from_string on "
+                  "structured random models rendered with random syntactic alternatives, comments, continuations, loops, "
+                  "conditionals, substitutions, context values.",
+    "level_note": "partial: the character-level regular expressions, the two PEG grammars (parsimonious), Jinja, white space and "
+                  "comments are glue exercised by the correspondence, not modelled; the renderer of the harness and Python's ast "
+                  "are trusted for the text <-> tree reading; semantic theorems are over a commutative ring (no rounding); "
+                  "pseudofunction arguments with more than one level of parentheses / nested pseudofunctions are outside the "
+                  "generated language (open question in DESIGN 7).  Axiom-free (Closed under the global context).",
 }
 
 FUNCS1 = ["log", "exp", "sqrt", "abs", "logistic", "cf1"]
@@ -983,8 +1000,28 @@ def unroll(model):
 # 3. Coq literals
 # =====================================================================================
 
+class Interner:
+    """string literals are the expensive part of elaborating a case file: each distinct string is defined once"""
+
+    def __init__(self):
+        self.names = {}
+
+    def name(self, s):
+        if s not in self.names:
+            self.names[s] = f"s_{len(self.names)}"
+        return self.names[s]
+
+    def definitions(self):
+        return "\n".join(f"Definition {n} : string := {coq_string(s)}." for s, n in self.names.items())
+
+
+_INTERN = None
+
+
 def cq_s(s):
     assert all(32 <= ord(ch) < 127 for ch in s), s
+    if _INTERN is not None:
+        return _INTERN.name(s)
     return coq_string(s)
 
 
@@ -1338,7 +1375,9 @@ def _atomise_shift(model):
 
 def shard_text(cases) -> str:
     """cases: list of (model, observed)"""
-    lines = [HEADER]
+    global _INTERN
+    _INTERN = Interner()
+    lines = []
     for i, (model, obs) in enumerate(cases):
         lines.append(f"Definition ctx_{i} : context := {cq_context(model['context'])}.")
         lines.append(f"Definition src_{i} : source :=\n   {cq_source(model)}.")
@@ -1346,7 +1385,9 @@ def shard_text(cases) -> str:
     lines.append("Definition cases : list (cres * cres) := [" + "; ".join(
         f"(compile ctx_{i} true big_fuel src_{i}, obs_{i})" for i in range(len(cases))) + "].")
     lines.append("Eval vm_compute in (map (fun p => cres_diff (fst p) (snd p)) cases).")
-    return "\n".join(lines) + "\n"
+    defs = _INTERN.definitions()
+    _INTERN = None
+    return HEADER + defs + "\n" + "\n".join(lines) + "\n"
 
 
 def model_stats(model, dist):
@@ -1401,9 +1442,9 @@ def model_stats(model, dist):
 def correspondence(ctx) -> CorrResult:
     import random
     rng = ctx.rng
-    n_models = ctx.scale(120, 5000)
+    n_models = ctx.scale(80, 4000)
     n_render = 3
-    per = 40
+    per = 20
     feats = excluded_features()
     res = CorrResult()
     dist = {"items": {}, "directives": {}, "pseudofunctions": {}, "max_nesting": 0, "steady_variants": 0,
@@ -1795,7 +1836,7 @@ def falsify(ctx, hints):
         if isinstance(inp, dict) and inp.get("model"):
             fails += check_model(inp["model"], inp["source"], 777)
     # 3. generated models: evaluation against the independent reading; variants give identical models
-    n = ctx.scale(32, 1500)
+    n = ctx.scale(24, 1200)
     jobs = []
     for i in range(n):
         model = gen_case(rng, feats)
